@@ -425,6 +425,8 @@ def _validity(chk, ctx) -> None:
         'are_suited': 'len(set(cls.get_suits(cards))) <= 1',
         'are_rainbow': 'len(set(S)) == len(S)',
         'are_paired': 'len(set(R)) != len(R)',
+        'unknown_status': 'self.rank == Rank.UNKNOWN or self.suit == Suit.UNKNOWN',
+        '__bool__': 'not self.unknown_status',
     }
     for name, src in specs.items():
         fi = card.methods.get(name)
